@@ -93,6 +93,9 @@ REQUIRED_BUCKETS = ["doc/valid", "doc/reader-ok", "num/exponent-repr-small", "nu
                     "num/z-zero-at-some-vertices", "num/z-zero-at-all-vertices", "num/z-nowhere-zero", "num/z-negative-zero",
                     "num/state-value-zero", "dims/table-checked", "outside/history-left-the-quantifier", "outside/after-network-copy"]
 WORKERS = {"quick": 1, "thorough": 8}
+# translator tie of the WRITER: Gen.SrcC03 (regenerated from the working tree on every run by harness/translate/src_c03.py)
+# against the regenerated XSD (T03A, table checks) and the hand models XmlW.*Kids (T03, for all environments)
+EXTRA_MODULES = ["CRProps.T03", "CRProps.T03A"]
 
 XS_DECIMAL = re.compile(r"[+-]?([0-9]+(\.[0-9]*)?|\.[0-9]+)\Z")
 EXPONENTISH = re.compile(r"\s*[+-]?([0-9]+\.?[0-9]*|\.[0-9]+)[eE][+-]?[0-9]+\s*\Z")
